@@ -168,11 +168,11 @@ def _sweep(ctx, item, seed):
             kw = [int(kws[e][0]), int(kws[e][1])]
             actions = [np.asarray(a) for a in acts[e][: max(int(first[e]), 0)]]
             rec = episodes.Recorder(ctx, b, kw)
-            before = len(ctx.failures)
+            before = sum(f["hits"] for f in ctx.failures.values())
             with ctx.guard(b.name, rec.case(), size=10**6):
                 episodes.run_actions(b, rec, [a.tolist() for a in actions], Mon(b, ctx, None))
             ctx.count("sweep_flagged")
-            if len(ctx.failures) == before:
+            if sum(f["hits"] for f in ctx.failures.values()) == before:
                 ctx.count("sweep_unconfirmed")
         if len(ctx.samples) < 2:
             ctx.sample({"env": b.name, "entry": b.entry, "sweep_base_key": list(key), "salt": salt,
